@@ -198,7 +198,21 @@ def _replay_factory(model, rec):
     try:
         p = os.path.join(d, "notzip.pptx")
         open(p, "wb").write(b"hello")
-        for arg, want in ((p, PackageNotFoundError), (os.path.join(d, "missing.pptx"), PackageNotFoundError)):
+        import zipfile as _zf
+
+        good = io.BytesIO()
+        with _zf.ZipFile(good, "w") as z:
+            z.writestr("[Content_Types].xml", b"<Types/>" * 40)
+            z.writestr("_rels/.rels", b"<Relationships/>" * 40)
+        cut = []
+        for frac, nm in ((0.5, "half.pptx"), (0.9, "most.pptx")):
+            q = os.path.join(d, nm)
+            open(q, "wb").write(good.getvalue()[: int(len(good.getvalue()) * frac)])
+            cut.append(q)
+        q = os.path.join(d, "tail.pptx")
+        open(q, "wb").write(good.getvalue()[:-30])
+        cut.append(q)
+        for arg, want in [(p, PackageNotFoundError), (os.path.join(d, "missing.pptx"), PackageNotFoundError)] + [(q, PackageNotFoundError) for q in cut]:
             try:
                 _PhysPkgReader.factory(arg)
                 return {"confirmed": True, "witness_class": "factory", "detail": "factory(%r) did not raise" % arg}
@@ -813,6 +827,13 @@ def _native_irregular(tier="quick", seed=0):
             open(p, "wb").write(b"this is not a zip")
             cases.append((p, PackageNotFoundError, "non-zip file path"))
             cases.append((os.path.join(d, "absent.pptx"), PackageNotFoundError, "absent path"))
+            for frac in (0.25, 0.5, 0.97):
+                q = os.path.join(d, "cut%d.pptx" % int(frac * 100))
+                open(q, "wb").write(data[: int(len(data) * frac)])
+                cases.append((q, PackageNotFoundError, "zip file truncated to %d%% at a path" % int(frac * 100)))
+            q = os.path.join(d, "empty.pptx")
+            open(q, "wb").write(b"")
+            cases.append((q, PackageNotFoundError, "empty file at a path"))
             cases.append((io.BytesIO(b"this is not a zip"), zipfile.BadZipFile, "non-zip stream"))
             cases.append((io.BytesIO(data[:len(data) // 2]), zipfile.BadZipFile, "truncated zip stream"))
             cases.append((io.BytesIO(_zip([(n, x) for n, x in members if n != "[Content_Types].xml"])), KeyError, "no [Content_Types].xml"))
